@@ -297,3 +297,6 @@ def check(model, rep, tier):
     sibling_clause(model, rep, funcs)
     from .generic import axis_convention_obligations
     axis_convention_obligations(model, rep, ["acryo/backend/_bandpass.py", "acryo/_utils.py"], "2 layout", floor=3)
+    from .generic import with_params_forwarding_obligations
+    with_params_forwarding_obligations(model, rep, "3 callers", ("cutoff",))
+    rep.floor("WPARAM", 1, "(with_params of the alignment model classes that name this option)")
